@@ -284,16 +284,20 @@ def main():
               ("lib/tool.pn", 'import "util.pn";\npub fn scaled(x: i32) -> i32\n{\n\treturn: x * FACTOR\n}\n'),
               ("lib/util.pn", "pub const FACTOR: i32 = 2;\n"),
               ("app/util.pn", "pub const FACTOR: i32 = 3;\n")]
-    dreqs = ["alpha\trun\t" + "\t".join(x for j in o for x in (dfiles[j][0], esc(dfiles[j][1]))) for o in _it.permutations(range(4))]
+    # ... and every spelling of the file names on the command line: as they are, with a leading `./` (what shell completion
+    # writes), with a `./` inside; the imports name the files without
+    spellings = [lambda f: f, lambda f: "./" + f, lambda f: f.replace("/", "/./"), lambda f: "./" + f if f.startswith("lib") else f]
+    dorders = [(o, sp) for o in _it.permutations(range(4)) for sp in range(len(spellings))]
+    dreqs = ["alpha\trun\t" + "\t".join(x for j in o for x in (spellings[sp](dfiles[j][0]), esc(dfiles[j][1]))) for o, sp in dorders]
     dres = run_harness(dreqs)
-    for o, rq, da in zip(_it.permutations(range(4)), dreqs, dres):
+    for (o, sp), rq, da in zip(dorders, dreqs, dres):
         total += 1
         dh_, dd_ = kv(da)
         dist["directories:" + dh_] += 1
         if dh_ == "ok" and dd_.get("status") == "31":
             agreeing += 1
         else:
-            rep.violation("directories:" + "".join(map(str, o)), {
+            rep.violation("directories:%s:spelling%d" % ("".join(map(str, o)), sp), {
                 "why": "app/main.pn imports its sibling util.pn (FACTOR = 3) and lib/tool.pn, which imports ITS sibling util.pn (FACTOR = 2): "
                        "scaled(5) + 7 * FACTOR = 10 + 21 = 31 in every file order; got " + da[:160],
                 "files": dict(dfiles), "order": [dfiles[j][0] for j in o], "harness_request": rq})
